@@ -31,7 +31,7 @@ def sh(cmd, cwd=None, env=None, timeout=1200):
 
 
 def verdict(root: Path) -> dict:
-    rc, out = sh([str(V / "check"), "ALL", "--root", str(root)], cwd=str(V), env=dict(os.environ, VERIF_NO_EVIDENCE="1"))
+    rc, out = sh([str(V / "check"), "ALL", "--root", str(root)], cwd=str(V), env=dict(os.environ, VERIF_NO_EVIDENCE="1", **({"VERIF_SCRATCH_DIR": str(root)} if str(root) != "/repo" else {})))
     res: dict = {"known": sorted(l.split(" :: ")[0] for l in out.splitlines() if l.startswith("KNOWN-FINDING:")), "props": {}, "lines": {}}
     cur: list[str] = []
     for line in out.splitlines():
